@@ -340,4 +340,58 @@ theorem plan_fuel_irrelevant (v : Variant) (g : DstCfg) :
         exact plan_fuel_irrelevant v g f f' s (by omega) (by omega)
     · rfl
 
+/-! ### Round 5: the pre-sized bloom filter of a packed row group (seed C11-5a)
+
+One column of `packSegmentsByColumn`: a segment is `(chunk.NumValues(), chunkNumValuesIsExact(chunk),
+values the segment really yields)`. MIRROR `configureBloomFiltersForSegments`
+(writer_reencode.go:177-193): `some total` = `resizeBloomFilter(total)`, `none` = the filter stays
+unallocated and `flushFilterPages` sizes it from the values written. -/
+
+structure PackSeg where
+  numValues : Nat   -- `chunk.NumValues()` (an upper bound for row-range views of repeated columns)
+  exact     : Bool  -- `chunkNumValuesIsExact(chunk)`
+  written   : Nat   -- the values `copyColumnValues` hands to the column writer
+
+def presizeTotal (segs : List PackSeg) : Option Nat :=
+  if segs.all (·.exact) then some ((segs.map (·.numValues)).sum) else none
+
+/-- the slip of seed C11-5a: `exact = chunkNumValuesIsExact(chunk)`, the last segment decides -/
+def presizeTotalLastOnly (segs : List PackSeg) : Option Nat :=
+  if (segs.getLast?.map (·.exact)).getD true then some ((segs.map (·.numValues)).sum) else none
+
+/-- SPEC side: a chunk announced exact yields exactly the values it announces -/
+def PackSeg.Honest (s : PackSeg) : Prop := s.exact = true → s.written = s.numValues
+
+/-- a packed row group is pre-sized only for the number of values it is going to hold: the filter has
+    the size the bits-per-value setting prescribes for the chunk (`bloomSize bpv` of its values) -/
+theorem presize_is_values_written (segs : List PackSeg) (h : ∀ s ∈ segs, s.Honest) (t : Nat)
+    (ht : presizeTotal segs = some t) : t = (segs.map (·.written)).sum := by
+  unfold presizeTotal at ht
+  split at ht
+  · rename_i hall
+    injection ht with ht
+    subst ht
+    induction segs with
+    | nil => rfl
+    | cons s rest ih =>
+      simp only [List.all_cons, Bool.and_eq_true] at hall
+      have hs := h s (by simp) hall.1
+      simp only [List.map_cons, List.sum_cons]
+      rw [ih (fun x hx => h x (by simp [hx])) hall.2, hs]
+  · cases ht
+
+/-- hypotheses satisfiable: two exact segments -/
+example : presizeTotal [⟨7, true, 7⟩, ⟨5, true, 5⟩] = some 12 ∧ ∀ s ∈ [(⟨7, true, 7⟩ : PackSeg), ⟨5, true, 5⟩], s.Honest := by
+  refine ⟨by decide, ?_⟩
+  intro s hs
+  simp at hs
+  rcases hs with rfl | rfl <;> intro _ <;> rfl
+
+/-- the slip is refuted: a range view (12000 announced, 5856 yielded) followed by a whole row group of
+    12000 values is pre-sized for 24000 values, 30016 bytes where 10 bits per value prescribe 22336 -/
+theorem presize_last_only_oversizes :
+    let segs : List PackSeg := [⟨12000, false, 5856⟩, ⟨12000, true, 12000⟩]
+    presizeTotal segs = none ∧ presizeTotalLastOnly segs = some 24000 ∧
+      bloomSize 10 24000 = 30016 ∧ bloomSize 10 ((segs.map (·.written)).sum) = 22336 := by decide
+
 end PqModel.Props.C11
